@@ -174,6 +174,14 @@ struct Flags {
     else VF_CHECK(cond, id, msgexpr);                                                                   \
   } while (0)
 
+// inclusion frequencies: the same, and a stale stored maximum (KEY_STALE) also distorts them (wrong rho) even where the error in c
+// stays below the tolerance of the c check
+#define C18_CHECK_P(cond, id, model, msgexpr)                                                           \
+  do {                                                                                                  \
+    if ((model).stale && !(model).over1 && !(model).tiny) VF_CHECK_K(cond, id, KEY_STALE, msgexpr << " (after a merge whose lighter input held the larger maximum weight)"); \
+    else C18_CHECK_S(cond, id, model, msgexpr);                                                         \
+  } while (0)
+
 bool close_rel(double a, double b, double rel) { return std::fabs(a - b) <= rel * std::max(std::fabs(a), std::fabs(b)); }
 
 template <typename T>
@@ -598,14 +606,14 @@ void prop_incl(const Case& cs) {
     double p = c * w / m.W;   // <= 1 because c <= W / wmax
     double freq = static_cast<double>(hits[kv.first]) / static_cast<double>(R);
     double tol = 5.0 * std::sqrt(std::max(0.0, p * (1 - p)) / static_cast<double>(R)) + 0.01;
-    VF_CHECK(std::fabs(freq - p) <= tol, "inclusion-proportional-to-weight",
+    C18_CHECK_P(std::fabs(freq - p) <= tol, "inclusion-proportional-to-weight", m,
              "item " << kv.first << " weight " << w << " of W " << m.W << ", c " << c << ": inclusion frequency " << freq << " over " << R
              << " seeded repetitions, expected c*w/W = " << p << " +- " << tol);
     if (w != m.eqw) distinct_w = true;
     if (p < 0.999) partial_prob = true;
   }
   double mean_size = size_sum / static_cast<double>(R);
-  VF_CHECK(std::fabs(mean_size - c) <= 5.0 * 0.5 / std::sqrt(static_cast<double>(R)) + 0.01, "mean-sample-size", "mean sample size " << mean_size << " over " << R << " repetitions, c = " << c);
+  C18_CHECK_P(std::fabs(mean_size - c) <= 5.0 * 0.5 / std::sqrt(static_cast<double>(R)) + 0.01, "mean-sample-size", m, "mean sample size " << mean_size << " over " << R << " repetitions, c = " << c);
   if (first.merged) vf::label("merge:both-non-empty");
   if (first.uam) vf::label("update-after-merge");
   if (distinct_w) vf::label("distinct-weights");
